@@ -17,6 +17,7 @@ import (
 	"perkeep.org/pkg/blob"
 	"perkeep.org/pkg/blobserver"
 	_ "perkeep.org/pkg/blobserver/encrypt"
+	"perkeep.org/pkg/blobserver/localdisk"
 	"perkeep.org/pkg/blobserver/memory"
 	"perkeep.org/pkg/sorted"
 
@@ -58,7 +59,10 @@ type lowEvent struct {
 // tampered contents served instead of the stored bytes, (b) a write hook, (c) an event log.
 type lowStore struct {
 	name string
-	mem  *memory.Storage
+	mem  backing
+	// loose: the backing store does not verify that the bytes it is given hash to the blob's name
+	// (perkeep's localdisk; memory.Storage does verify)
+	loose bool
 
 	mu       sync.Mutex
 	over     map[blob.Ref][]byte
@@ -76,14 +80,70 @@ type lowStore struct {
 	packedFail  map[int]int
 	packedOK    map[int]int
 	compactDone map[int]int
+	// fullMin > 0: a blob of at least that size written to this (meta) store is a packed meta blob with
+	// >= encrypt.FullMetaBlobSize lines, which its compaction does not put back on the small-meta heap
+	fullMin int
+	fullOK  map[int]int
 	// failOnce: when 1, the next write of a small (non-packed) blob to this store fails once without
 	// taking effect (a transient fault; the caller retries the receive)
 	failOnce atomic.Int32
 }
 
+// backing is the real perkeep store under a lowStore plus raw access for the harness.
+type backing interface {
+	blobserver.Storage
+	BlobContents(br blob.Ref) (contents string, ok bool)
+	BlobrefStrings() []string
+	NumBlobs() int
+}
+
 func newLow(name string) *lowStore {
 	return &lowStore{name: name, mem: &memory.Storage{}, over: map[blob.Ref][]byte{},
-		uploadsOK: map[int]int{}, removesDone: map[int]int{}, packedFail: map[int]int{}, packedOK: map[int]int{}, compactDone: map[int]int{}}
+		uploadsOK: map[int]int{}, removesDone: map[int]int{}, packedFail: map[int]int{}, packedOK: map[int]int{}, compactDone: map[int]int{}, fullOK: map[int]int{}}
+}
+
+// diskBacking is a real localdisk store: like most of perkeep's stores (and unlike memory.Storage)
+// it stores whatever bytes it is handed under the given name without re-hashing them.
+type diskBacking struct {
+	*localdisk.DiskStorage
+}
+
+func (d diskBacking) BlobContents(br blob.Ref) (string, bool) {
+	rc, _, err := d.Fetch(context.Background(), br)
+	if err != nil {
+		return "", false
+	}
+	defer rc.Close()
+	b, err := io.ReadAll(rc)
+	if err != nil {
+		return "", false
+	}
+	return string(b), true
+}
+
+func (d diskBacking) BlobrefStrings() []string {
+	var out []string
+	blobserver.EnumerateAll(context.Background(), d.DiskStorage, func(sb blob.SizedRef) error {
+		out = append(out, sb.Ref.String())
+		return nil
+	})
+	return out
+}
+
+func (d diskBacking) NumBlobs() int { return len(d.BlobrefStrings()) }
+
+// newLowDisk is a wrapped store backed by a localdisk directory.
+func newLowDisk(name, dir string) (*lowStore, error) {
+	if err := os.MkdirAll(dir, 0700); err != nil {
+		return nil, err
+	}
+	ds, err := localdisk.New(dir)
+	if err != nil {
+		return nil, err
+	}
+	l := newLow(name)
+	l.mem, l.loose = diskBacking{ds}, true
+	return l, nil
 }
 
 func (l *lowStore) raw(ref blob.Ref) []byte {
@@ -174,6 +234,9 @@ func (l *lowStore) record(e lowEvent) {
 			if e.Size >= packedMin {
 				l.packedOK[e.Inc]++
 			}
+			if l.fullMin > 0 && e.Size >= l.fullMin {
+				l.fullOK[e.Inc]++
+			}
 		} else if e.Size >= packedMin {
 			l.packedFail[e.Inc]++
 		}
@@ -188,6 +251,7 @@ func (l *lowStore) record(e lowEvent) {
 
 // view is the handle one incarnation of the encrypt store has on a lower store.
 type view struct {
+	in   *inst
 	l    *lowStore
 	inc  int
 	dead *atomic.Bool // the incarnation crashed: no further effect
@@ -195,12 +259,17 @@ type view struct {
 }
 
 func (v *view) Fetch(ctx context.Context, ref blob.Ref) (io.ReadCloser, uint32, error) {
+	v.in.handed(v.l, "Fetch", "name", []byte(ref.String()), true)
 	return v.l.Fetch(ctx, ref)
 }
 func (v *view) StatBlobs(ctx context.Context, blobs []blob.Ref, fn func(blob.SizedRef) error) error {
+	for _, ref := range blobs {
+		v.in.handed(v.l, "StatBlobs", "name", []byte(ref.String()), true)
+	}
 	return v.l.StatBlobs(ctx, blobs, fn)
 }
 func (v *view) EnumerateBlobs(ctx context.Context, dest chan<- blob.SizedRef, after string, limit int) error {
+	v.in.handed(v.l, "EnumerateBlobs", "cursor", []byte(after), true)
 	return v.l.EnumerateBlobs(ctx, dest, after, limit)
 }
 
@@ -215,6 +284,8 @@ func (v *view) ReceiveBlob(ctx context.Context, br blob.Ref, src io.Reader) (blo
 	if err != nil {
 		return blob.SizedRef{}, err
 	}
+	v.in.handed(l, "ReceiveBlob", "name", []byte(br.String()), true)
+	v.in.handed(l, "ReceiveBlob", "body", all, false)
 	l.gate.RLock()
 	defer l.gate.RUnlock()
 	if v.dead.Load() {
@@ -254,6 +325,9 @@ func (v *view) ReceiveBlob(ctx context.Context, br blob.Ref, src io.Reader) (blo
 
 func (v *view) RemoveBlobs(ctx context.Context, blobs []blob.Ref) error {
 	l := v.l
+	for _, ref := range blobs {
+		v.in.handed(l, "RemoveBlobs", "name", []byte(ref.String()), true)
+	}
 	l.gate.RLock()
 	defer l.gate.RUnlock()
 	if v.dead.Load() {
@@ -316,13 +390,39 @@ func (l *lowStore) nEvents() int {
 // way a launched compaction ends without touching the meta store: its index lookup of the
 // blob whose receive is still in flight misses (ReceiveBlob records the meta blob before
 // it sets the index row).
+//
+// With watch set it also tells the lookups of compaction goroutines (makePackedMetaBlob is the
+// entry function of the calling goroutine) from foreground lookups; that allows (a) waiting for
+// the termination of exactly the compaction goroutines of this store, (b) a transient failure of
+// the j-th lookup made by a compaction, (c) delaying the index row of the receive that triggers a
+// compaction until the compaction has looked that row up (a slow, e.g. disk-backed, index).
 type spyKV struct {
 	sorted.KeyValue
 	mu       sync.Mutex
 	inflight string
 	misses   int
 	aborts   int
+
+	watch      bool
+	packers    map[int64]bool // goroutine ids seen inside makePackedMetaBlob, not yet known to have ended
+	packerGets int
+	packerErrs int // lookups of a compaction that returned an error (each ends that compaction on the unchanged tree)
+
+	failPackerGet int // >0: the failPackerGet-th compaction lookup from now fails once with errKVTransient
+	faultFired    int
+	faultKey      string
+
+	gateKey     string        // Set(gateKey) waits until a compaction looked gateKey up
+	gateCh      chan struct{} // closed when that lookup was seen
+	gateSeen    bool
+	gateWaits   int
+	gateExpired int
 }
+
+var errKVTransient = errors.New("verif: injected transient failure of a meta index lookup")
+
+// gateLimit bounds the delay of a gated Set; its expiry only means the interleaving was not forced.
+const gateLimit = 2 * time.Second
 
 func (k *spyKV) begin(key string) {
 	k.mu.Lock()
@@ -336,25 +436,195 @@ func (k *spyKV) end() {
 	k.mu.Unlock()
 }
 
-func (k *spyKV) Get(key string) (string, error) {
-	v, err := k.KeyValue.Get(key)
-	if err != nil {
-		k.mu.Lock()
-		if key == k.inflight && k.inflight != "" {
-			k.misses++
-			if k.misses >= 2 {
-				k.aborts++
-			}
-		}
-		k.mu.Unlock()
+// packerGoid reports whether the calling goroutine is a compaction goroutine and its id.
+func packerGoid() (int64, bool) {
+	var buf [8192]byte
+	b := buf[:runtime.Stack(buf[:], false)]
+	if !bytes.Contains(b, []byte("makePackedMetaBlob")) {
+		return 0, false
 	}
+	// "goroutine 123 [running]:"
+	b = bytes.TrimPrefix(b, []byte("goroutine "))
+	var id int64
+	for _, c := range b {
+		if c < '0' || c > '9' {
+			break
+		}
+		id = id*10 + int64(c-'0')
+	}
+	return id, id != 0
+}
+
+func (k *spyKV) Get(key string) (string, error) {
+	if !k.watch {
+		v, err := k.KeyValue.Get(key)
+		if err != nil {
+			k.mu.Lock()
+			if key == k.inflight && k.inflight != "" {
+				k.misses++
+				if k.misses >= 2 {
+					k.aborts++
+				}
+			}
+			k.mu.Unlock()
+		}
+		return v, err
+	}
+	goid, packer := packerGoid()
+	if !packer {
+		return k.KeyValue.Get(key)
+	}
+	k.mu.Lock()
+	if k.packers == nil {
+		k.packers = map[int64]bool{}
+	}
+	k.packers[goid] = true
+	k.packerGets++
+	inject := false
+	if k.failPackerGet > 0 {
+		k.failPackerGet--
+		if k.failPackerGet == 0 {
+			inject = true
+			k.faultFired++
+			k.faultKey = key
+		}
+	}
+	k.mu.Unlock()
+	var v string
+	var err error
+	if inject {
+		err = errKVTransient
+	} else {
+		v, err = k.KeyValue.Get(key)
+	}
+	k.mu.Lock()
+	if err != nil {
+		k.packerErrs++
+		k.aborts++
+	}
+	if key == k.gateKey && k.gateKey != "" && !k.gateSeen {
+		k.gateSeen = true
+		close(k.gateCh)
+	}
+	k.mu.Unlock()
 	return v, err
+}
+
+// armGate delays the next Set of key until a compaction goroutine has looked key up.
+func (k *spyKV) armGate(key string) {
+	k.mu.Lock()
+	k.gateKey, k.gateCh, k.gateSeen = key, make(chan struct{}), false
+	k.mu.Unlock()
+}
+
+// disarmGate returns whether the compaction's lookup of the gated key happened before its Set.
+func (k *spyKV) disarmGate() (forced bool) {
+	k.mu.Lock()
+	defer k.mu.Unlock()
+	forced = k.gateSeen && k.gateWaits > 0 && k.gateExpired == 0
+	k.gateKey, k.gateWaits, k.gateExpired = "", 0, 0
+	return forced
+}
+
+func (k *spyKV) Set(key, value string) error {
+	k.mu.Lock()
+	var ch chan struct{}
+	if key == k.gateKey && k.gateKey != "" {
+		ch = k.gateCh
+		k.gateWaits++
+	}
+	k.mu.Unlock()
+	if ch != nil {
+		tm := time.NewTimer(gateLimit)
+		select {
+		case <-ch:
+		case <-tm.C:
+			k.mu.Lock()
+			k.gateExpired++
+			k.mu.Unlock()
+		}
+		tm.Stop()
+	}
+	return k.KeyValue.Set(key, value)
+}
+
+// armPackerGetFault makes the j-th index lookup of compaction goroutines (counted from now) fail once.
+func (k *spyKV) armPackerGetFault(j int) {
+	k.mu.Lock()
+	k.failPackerGet = j
+	k.mu.Unlock()
+}
+
+// packerFault reports how many injected lookup failures fired and disarms a pending one.
+func (k *spyKV) packerFault() (fired int, key string) {
+	k.mu.Lock()
+	defer k.mu.Unlock()
+	k.failPackerGet = 0
+	return k.faultFired, k.faultKey
 }
 
 func (k *spyKV) nAborts() int {
 	k.mu.Lock()
 	defer k.mu.Unlock()
 	return k.aborts
+}
+
+func (k *spyKV) nPackerErrs() int {
+	k.mu.Lock()
+	defer k.mu.Unlock()
+	return k.packerErrs
+}
+
+// waitPackers waits until none of the compaction goroutines that ever looked something up in this
+// index exists any more (goroutine ids are never reused).  A timeout is reported by the caller as
+// inconclusive.
+func (k *spyKV) waitPackers(d time.Duration) bool {
+	deadline := time.Now().Add(d)
+	pause := 200 * time.Microsecond
+	for {
+		k.mu.Lock()
+		n := len(k.packers)
+		ids := make([]int64, 0, n)
+		for id := range k.packers {
+			ids = append(ids, id)
+		}
+		k.mu.Unlock()
+		if n == 0 {
+			return true
+		}
+		dump := growDump()
+		k.mu.Lock()
+		for _, id := range ids {
+			if !bytes.Contains(dump, []byte(fmt.Sprintf("goroutine %d [", id))) {
+				delete(k.packers, id)
+			}
+		}
+		n = len(k.packers)
+		k.mu.Unlock()
+		if n == 0 {
+			return true
+		}
+		if time.Now().After(deadline) {
+			return false
+		}
+		time.Sleep(pause)
+		if pause < 20*time.Millisecond {
+			pause *= 2
+		}
+	}
+}
+
+// growDump returns the stacks of all goroutines.
+func growDump() []byte {
+	for n := 1 << 20; ; n *= 2 {
+		buf := make([]byte, n)
+		if m := runtime.Stack(buf, true); m < n {
+			return buf[:m]
+		}
+		if n >= 256<<20 {
+			return buf
+		}
+	}
 }
 
 // inst is one encrypt store over two harness-owned lower stores.
@@ -374,6 +644,20 @@ type inst struct {
 	kv       *spyKV
 	S        blobserver.Storage
 	m0       int // meta blobs present when the current incarnation started
+
+	// skipMin > 0: size from which a meta blob has more than encrypt.FullMetaBlobSize lines (long histories; only
+	// used to know which compactions to wait for)
+	skipMin int
+
+	// leak monitor over what is handed to the wrapped stores
+	sc      *scanner
+	argMu   sync.Mutex
+	argSeen map[string]bool
+
+	// options of the NEXT creation (reset by it)
+	keepIndex sorted.KeyValue // not nil: the next incarnation gets this index instead of an empty one
+	watchKV   bool            // every incarnation's index tells compaction lookups from foreground ones
+	armKV     func(kv *spyKV) // prepares the next incarnation's index before the store is created
 }
 
 const agree = "that encryption support hasn't been peer-reviewed, isn't finished, and its format might change."
@@ -392,10 +676,21 @@ func newInst(r *ev.Run, root, id string) (*inst, error) {
 }
 
 // create builds a NEW encrypt store over the same lower stores with fresh wrappers and an
-// EMPTY meta index.  arm may prepare the plan before any call is made.
+// EMPTY meta index (unless keepIndex hands it a surviving one).  arm may prepare the plan before
+// any call is made.
 func (in *inst) create(arm func(p *inject.Plan)) (blobserver.Storage, *inject.Plan, *spyKV, error) {
 	in.inc++
 	in.m0next = in.meta.mem.NumBlobs()
+	if in.skipMin > 0 {
+		// meta blobs with more than encrypt.FullMetaBlobSize lines are not put on the small-meta heap
+		in.m0next = 0
+		blobserver.EnumerateAll(context.Background(), in.meta.mem, func(sb blob.SizedRef) error {
+			if int(sb.Size) < in.skipMin {
+				in.m0next++
+			}
+			return nil
+		})
+	}
 	plan := inject.NewPlan()
 	in.lastPlan = plan
 	dead := new(atomic.Bool)
@@ -404,9 +699,17 @@ func (in *inst) create(arm func(p *inject.Plan)) (blobserver.Storage, *inject.Pl
 		arm(plan)
 	}
 	ld := sto.NewLoader()
-	ld.Set("/enc-blobs/", inject.Wrap("blobs", &view{l: in.blobs, inc: in.inc, dead: dead, plan: plan}, plan))
-	ld.Set("/enc-meta/", inject.Wrap("meta", &view{l: in.meta, inc: in.inc, dead: dead, plan: plan}, plan))
-	kv := &spyKV{KeyValue: sorted.NewMemoryKeyValue()}
+	ld.Set("/enc-blobs/", inject.Wrap("blobs", &view{in: in, l: in.blobs, inc: in.inc, dead: dead, plan: plan}, plan))
+	ld.Set("/enc-meta/", inject.Wrap("meta", &view{in: in, l: in.meta, inc: in.inc, dead: dead, plan: plan}, plan))
+	kv := &spyKV{KeyValue: sorted.NewMemoryKeyValue(), watch: in.watchKV}
+	if in.keepIndex != nil {
+		kv.KeyValue = in.keepIndex
+		in.keepIndex = nil
+	}
+	if in.armKV != nil {
+		in.armKV(kv)
+		in.armKV = nil
+	}
 	name := fmt.Sprintf("c11-%s-%d", in.id, in.inc)
 	kvc := inject.RegisterKV(name, kv)
 	defer inject.UnregisterKV(name)
@@ -536,9 +839,9 @@ func (in *inst) crash() {
 func (in *inst) compactionCounts() (launched, terminated int) {
 	m := in.meta
 	m.mu.Lock()
-	up, rm, pf := m.uploadsOK[in.inc], m.removesDone[in.inc], m.packedFail[in.inc]
+	up, rm, pf, full := m.uploadsOK[in.inc], m.removesDone[in.inc], m.packedFail[in.inc], m.fullOK[in.inc]
 	m.mu.Unlock()
-	return (in.m0 + up) / heapLimit, rm + pf + in.kv.nAborts()
+	return (in.m0 + up - full) / heapLimit, rm + pf + in.kv.nAborts()
 }
 
 // waitQuiesce waits (bounded) for every launched compaction to reach its terminal event.
